@@ -117,6 +117,12 @@ def gen_c12_case(rng: random.Random):
     elif kind == "regions_sectors":
         regs = rng.sample(REGS, rng.randint(1, 3))
         secs = rng.sample(SECS, rng.randint(1, 3))
+        if rng.random() < 0.25:
+            # a region or sector listed twice is documented as valid (duplicates are removed with a warning)
+            if rng.random() < 0.5:
+                regs = regs + [rng.choice(regs)]
+            else:
+                secs = secs + [rng.choice(secs)]
         wr, mr = weights(regs, REGS)
         ws, ms = weights(secs, SECS)
         case.update({"regs": regs, "secs": secs, "wr": None if wr is None else list(map(list, wr.items())),
@@ -177,6 +183,8 @@ def run_c12_impl(case):
     except Exception as e:
         return {"out": "reject", "exc": f"{type(e).__name__}: {str(e)[:100]}"}
     imp = ev.impact
+    if imp.index.has_duplicates:
+        return {"out": "ok", "impact": {}, "order": [], "total": float(ev.total_impact), "aff": [], "duplicated_index": True}
     return {"out": "ok", "impact": {lab(r, s): float(v) for (r, s), v in imp.items()},
             "order": [lab(r, s) for (r, s) in imp.index], "total": float(ev.total_impact),
             "aff": sorted(lab(r, s) for (r, s) in ev.aff_industries)}
@@ -189,7 +197,7 @@ def run_c12_model(dr: Driver, case):
                "weights": None if w is None else [[lab(*k), q(v)] for k, v in w]}
     elif case["kind"] == "regions_sectors":
         req = {"op": "impact", "kind": "regions_sectors", "impact": q(case["impact"]),
-               "regs": [REGS.index(r) for r in case["regs"]], "secs": [SECS.index(s) for s in case["secs"]], "nSec": len(SECS),
+               "regs": [REGS.index(r) for r in dict.fromkeys(case["regs"])], "secs": [SECS.index(s) for s in dict.fromkeys(case["secs"])], "nSec": len(SECS),
                "wr": None if case["wr"] is None else [[REGS.index(k), q(v)] for k, v in case["wr"]],
                "ws": None if case["ws"] is None else [[SECS.index(k), q(v)] for k, v in case["ws"]]}
     else:
@@ -234,6 +242,8 @@ def explore_c12(tier, seed):
                     viol(res, "C12", f"invalid input accepted ({case['bad']})", case=case, impl=impl)
             elif impl["out"] != "ok":
                 viol(res, "C12", "valid input rejected", case=case, impl=impl)
+            elif impl.get("duplicated_index"):
+                viol(res, "C12", "per-industry impact has a duplicated industry", case=case)
             else:
                 vals = impl["impact"]
                 tot = sum(vals.values())
@@ -585,6 +595,11 @@ def explore_c16(tier, seed):
                     continue
                 res["scenarios"] += 1
                 bump(res, f"{stream}/{'manual' if manual else 'loop'}/saved={len(saved)}/stocks={reg}/stop={stop_early}")
+                if rng.random() < 0.5:
+                    # looking at a record before / during the run must not change what is seen afterwards
+                    _ = sim.production_realised, sim.limiting_inputs
+                    if reg:
+                        _ = sim.inputs_stocks
                 if manual:
                     tr = capture.run(sc2, sim=sim, max_steps=stop_early)
                     sim._flush_memmaps() if sim._files_to_record else None
@@ -666,8 +681,10 @@ def explore_c16(tier, seed):
                             if not np.array_equal(np.asarray(back), arr, equal_nan=(dtype != "byte")):
                                 viol(res, "C16", f"file of record {r} read back with the documented dtype and shape differs from the in-memory data")
                             del back
-                    # accessor returns a copy as DataFrame in lexicographic order
+                    # accessor returns a copy as DataFrame in lexicographic order, showing the current data
                     df = getattr(sim, r)
+                    if not np.array_equal(df.to_numpy(dtype=float).reshape(arr.shape), arr.astype(float), equal_nan=True):
+                        viol(res, "C16", f"accessor of record {r} does not show the recorded data")
                     if list(df.columns) != sorted(df.columns):
                         viol(res, "C16", f"record {r} columns not in lexicographic order")
                 if ok_pattern:
@@ -809,6 +826,28 @@ def explore_c17(tier, seed):
         if len(scs) < 2:
             continue
         res["scenarios"] += 1
+        # partial runs (fewer steps than the horizon): never-simulated rows are part of the results too
+        part = []
+        for _rep in range(2):
+            simp = scen.build_sim(copy.deepcopy(scs[0]))
+            for _ in range(max(1, scs[0]["T"] // 2)):
+                try:
+                    if simp.next_step() == 1:
+                        break
+                except Exception:
+                    break
+            part.append({r: getattr(simp, r).to_numpy(dtype=float).copy() for r in paired.RECORDS})
+            junk = [scen.build_sim(copy.deepcopy(sc_)) for sc_ in scs[1:]]   # other simulations created in between
+            for j_ in junk:
+                try:
+                    j_.loop()
+                except Exception:
+                    pass
+            del junk
+        for r in paired.RECORDS:
+            if not np.array_equal(part[0][r], part[1][r], equal_nan=True):
+                viol(res, "C17", f"the same partial run gives different records ({r}) depending on what else ran in the process")
+                break
         # isolated references
         refs = [paired.run_records(copy.deepcopy(sc)) for sc in scs]
         again = [paired.run_records(copy.deepcopy(sc)) for sc in scs]
@@ -872,11 +911,20 @@ def explore_c17(tier, seed):
         model = build_model_with_caller_objects(sc["table"], cfg, io)
         ev_objs, ev_inputs = [], []
         for e in sc["events"]:
+            if e["type"] != "arbitrary" and e["emf"] == sc["model"]["monetary_factor"]:
+                # express the event in another unit so that the conversion path is exercised
+                new_f = 1 if sc["model"]["monetary_factor"] != 1 else 10**3
+                ratio = e["emf"] / new_f
+                e["impact"] = {kk: v * ratio for kk, v in e["impact"].items()}
+                if e.get("house"):
+                    e["house"] = {kk: v * ratio for kk, v in e["house"].items()}
+                e["emf"] = new_f
             imp = scen._mi(dict(e["impact"]), ["region", "sector"])
             house = scen._mi(dict(e["house"]), ["region", "category"]) if e.get("house") else None
             rs = dict(e["reb_sectors"]) if e.get("reb_sectors") else None
             ev_inputs.append((imp, deep_snapshot(imp), house, deep_snapshot(house) if house is not None else None, rs, deep_snapshot(rs) if rs else None))
             ev_objs.append(build_event_with(e, imp, house, rs))
+        ev_snaps = [deep_snapshot(ev.impact) for ev in ev_objs]
         sim = Simulation(model, n_temporal_units_to_sim=sc["T"])
         for ev in ev_objs:
             sim.add_event(ev)
@@ -884,6 +932,9 @@ def explore_c17(tier, seed):
             sim.loop()
         except Exception:
             pass
+        for ev, sn in zip(ev_objs, ev_snaps):
+            if not same_snapshot(sn, ev.impact):
+                viol(res, "C17", "an Event object was modified by being used in a simulation (its impact changed)", case=scen.summarize(sc))
         for nm, sn in snaps.items():
             if not same_snapshot(sn, getattr(io, nm)):
                 viol(res, "C17", f"the caller's table was modified (mriot.{nm})", case=scen.summarize(sc))
